@@ -68,30 +68,30 @@ def _find_molv(ctx: Ctx):
 
 
 def run(ctx: Ctx):
-    _find_molv(ctx)
+    ctx.attempt("_find_molv", lambda: _find_molv(ctx))
     E = Effects(ctx.repo)
-    c18.r6_1(ctx, E, "R6.1")
-    r6_2(ctx, E)
-    r6_3(ctx)
-    r6_4(ctx)
-    r6_5(ctx, E.R)
-    r6_7(ctx)
+    ctx.attempt("R6.1", lambda: c18.r6_1(ctx, E, "R6.1"))
+    ctx.attempt("R6.2", lambda: r6_2(ctx, E))
+    ctx.attempt("R6.3", lambda: r6_3(ctx))
+    ctx.attempt("R6.4", lambda: r6_4(ctx))
+    ctx.attempt("R6.5", lambda: r6_5(ctx, E.R))
+    ctx.attempt("R6.7", lambda: r6_7(ctx))
     # R6.6: proposal constructors and the no-input-mutation rule
     L = c09.Loop(ctx)
-    c09.r9_3(ctx, L, rule="R6.6")
-    c07.r7_1(ctx, ctx.func("move_mol_atom"), rule="R6.6")
+    ctx.attempt("R6.6", lambda: c09.r9_3(ctx, L, rule="R6.6"))
+    ctx.attempt("R6.6", lambda: c07.r7_1(ctx, ctx.func("move_mol_atom"), rule="R6.6"))
     # the single-atom move restores every bond it touches: traversal discipline and pull length (C07/R7.2, R7.3, R7.5)
-    c07.r7_2_3(ctx, ctx.func("move_mol_atom"))
-    c07.r7_5(ctx, ctx.func("move_mol_atom"))
-    c07.r7_6(ctx, ctx.func("move_mol_atom"), ctx.func("find_atom_random_displ"))
+    ctx.attempt("R7.2", lambda: c07.r7_2_3(ctx, ctx.func("move_mol_atom")))
+    ctx.attempt("R7.5", lambda: c07.r7_5(ctx, ctx.func("move_mol_atom")))
+    ctx.attempt("R7.6", lambda: c07.r7_6(ctx, ctx.func("move_mol_atom"), ctx.func("find_atom_random_displ")))
     # rotations are rigid: the rotation-matrix rules of C17 (axis normalised, closed form orthogonal with det +1)
     from . import rotmat
-    rotmat.rules(ctx)
+    ctx.attempt("R17.4", lambda: rotmat.rules(ctx))
     # R6.8: a proposal whose energy is not a number (degenerate single-atom move) is never accepted: the acceptance
     # rule has the positive form `E0/E1 >= 1 -> accept, else one draw`, which is False for NaN on both tests
-    c09.r9_6(ctx, L, rule="R6.8")
+    ctx.attempt("R6.8", lambda: c09.r9_6(ctx, L, rule="R6.8"))
     from ..util import persistent_state
-    persistent_state(ctx, "R6.9", [f_ for f_ in (ctx.repo.func(q_, required=False) for q_ in ('Alignment.align_molecules', 'minimize_molecules', '_minimize_molecules', 'accept_metropolis')) if f_ is not None], "an alignment")
+    ctx.attempt("R6.9", lambda: persistent_state(ctx, "R6.9", [f_ for f_ in (ctx.repo.func(q_, required=False) for q_ in ('Alignment.align_molecules', 'minimize_molecules', '_minimize_molecules', 'accept_metropolis')) if f_ is not None], "an alignment"))
 
 
 def r6_2(ctx: Ctx, E: Effects, rule="R6.2"):
@@ -220,7 +220,34 @@ def r6_3(ctx: Ctx, rule="R6.3"):
     order_if, wb_if = _resolved(order_if), _resolved(wb_if)
     a, o_true, o_false = branches(order_if)
     b, w_true, w_false = branches(wb_if)
-    if not pair_form:
+    # guard form: each write-back statement sits under the ordering predicate itself (start: true, end: false); further
+    # tests on the same path (an identity check of the pair element, an impossible-branch raise) do not move the write
+    from ..cfg import conjuncts as _cj63
+    pm63 = parents_map(f.node)
+    wb_stmts = [s_ for s_ in walk_no_nested(f.node) if isinstance(s_, ast.Assign) and isinstance(s_.targets[0], ast.Attribute)
+                and s_.targets[0].attr == "atoms_positions" and norm(s_.targets[0].value) in ("self.start", "self.end")]
+    want63, wpol63 = ctext("len(self.start) < len(self.end)")
+    guard_form = None
+    if not pair_form and a != b and len(wb_stmts) == 2 and a == want63:
+        lits = {}
+        for s_ in wb_stmts:
+            g_ = {x_ for t_, p_ in guards_of(s_, pm63) for x_ in _cj63(t_, p_)}
+            lits[norm(s_.targets[0].value)] = [p_ for t_, p_ in g_ if t_ == want63]
+        exp = {"self.start": wpol63, "self.end": not wpol63}
+        if all(lits.get(k_) == [v_] for k_, v_ in exp.items()):
+            guard_form = True
+        elif any(lits.get(k_) == [not v_] for k_, v_ in exp.items()):
+            guard_form = False
+    if guard_form is True:
+        ctx.ob(rule, f, "write-backs under the ordering predicate `%s`" % norm(order_if.test), True,
+               "the result is written to start exactly on the paths where start is the mobile molecule and to end on the others", node=wb_if)
+        # the branch table below is read off the ordering if and the write-backs' own guards
+        w_true = [s_ for s_ in wb_stmts if norm(s_.targets[0].value) == "self.start"]
+        w_false = [s_ for s_ in wb_stmts if norm(s_.targets[0].value) == "self.end"]
+        if not wpol63:
+            w_true, w_false = w_false, w_true
+        b = a
+    if not pair_form and guard_form is not True:
         ctx.ob(rule, f, "ordering `%s` vs write-back `%s`" % (norm(order_if.test), norm(wb_if.test)), a == b,
                "the predicate that decides which molecule is mobile and the one that decides where the result is "
                "written are the same comparison" + ("" if a == b else " -- they differ (%s / %s): on some sizes the result is "
